@@ -379,9 +379,91 @@ def gen_cases(ctx, n, depth):
     return cases
 
 
+SELFREF_SRC = """
+import dataclasses, datetime, typing
+from mashumaro import DataClassDictMixin
+
+@dataclasses.dataclass
+class PNode:                       # plain dataclass that refers to itself by name
+    d: datetime.date
+    nxt: typing.Optional["PNode"] = None
+    kids: typing.List["PNode"] = dataclasses.field(default_factory=list)
+
+@dataclasses.dataclass
+class MNode(DataClassDictMixin):   # the same with the mixin
+    d: datetime.date
+    nxt: typing.Optional["MNode"] = None
+    kids: typing.List["MNode"] = dataclasses.field(default_factory=list)
+
+@dataclasses.dataclass
+class HoldP(DataClassDictMixin):
+    n: PNode
+
+@dataclasses.dataclass
+class HoldM(DataClassDictMixin):
+    n: MNode
+"""
+
+
+def run_selfref(ctx, n):
+    """classes that refer to themselves: the mixin methods, a nesting class, and Encoder / Decoder objects created for
+    the class itself and for containers of it give the same documents / objects"""
+    import datetime
+    import sys
+    import types
+
+    from mashumaro.codecs.basic import BasicDecoder, BasicEncoder
+
+    rng = ctx.rng
+    for i in range(n):
+        m = types.ModuleType(f"c15_selfref_{ctx.evaluations}_{i}")
+        sys.modules[m.__name__] = m
+        exec(compile(SELFREF_SRC, "<c15 selfref>", "exec", dont_inherit=True), m.__dict__)
+        flavour = rng.choice(["P", "M"])
+        N, H = getattr(m, flavour + "Node"), getattr(m, "Hold" + flavour)
+        depth = rng.randint(0, 3)
+
+        def mkv(k):
+            return N(datetime.date(2020, 1, 1 + k), mkv(k - 1) if k > 0 else None, [mkv(k - 1)] if k > 1 else [])
+
+        v = mkv(depth)
+        order = rng.sample(["codec", "list", "holder", "mixin"], 4)
+        case = {"selfref": {"flavour": flavour, "depth": depth, "order": order}}
+        ctx.count(case, True, kind=f"selfref:{flavour}")
+        outs = {}
+        try:
+            for ep in order:
+                try:
+                    if ep == "codec":
+                        doc = BasicEncoder(N).encode(v)
+                        back = BasicDecoder(N).decode(doc)
+                    elif ep == "list":
+                        doc = BasicEncoder(typing.List[N]).encode([v])[0]
+                        back = BasicDecoder(typing.List[N]).decode([doc])[0]
+                    elif ep == "holder":
+                        doc = H(v).to_dict()["n"]
+                        back = H.from_dict({"n": doc}).n
+                    else:
+                        if flavour != "M":
+                            continue
+                        doc = v.to_dict()
+                        back = N.from_dict(doc)
+                    outs[ep] = ("ok", doc, back == v)
+                except Exception as e:  # noqa
+                    outs[ep] = ("error", type(e).__name__, None)
+        finally:
+            sys.modules.pop(m.__name__, None)
+        ref = outs.get("holder")
+        for ep, o in outs.items():
+            if o != ref or o[0] != "ok" or o[2] is not True:
+                ctx.violation(case, {"entry": ep, "got": repr(o)[:300]}, {"through a nesting class": repr(ref)[:300]}, f"entry point '{ep}' disagrees on a class that refers to itself", lambda f: False)
+                break
+
+
 def run(ctx):
     ctx.rule = RULE
     ctx.lean_check("Mashu.Props.C15", THEOREMS, extra_targets=["Mashu.Dispatch"])
+    run_selfref(ctx, 40 if ctx.tier == "quick" else 600)
     n, depth = (900, 3) if ctx.tier == "quick" else (15000, 4)
     done = 0
     while done < n and ctx.time_left() > 40:
@@ -412,6 +494,8 @@ def replay(ctx, body):
         c13.run_uniform(ctx, 4, [c["uniform"]["dialect"]])
     elif c and "namesakes" in c:
         run_namesakes(ctx, 20)
+    elif c and "selfref" in c:
+        run_selfref(ctx, 40)
     elif c:
         run_cases(ctx, [(c["ty"], c["value"], c.get("mode", "valid"))])
     return ctx.finish()
